@@ -40,6 +40,8 @@ func C04(r *core.Report) {
 	r.Floor("C04.R4", 15)
 	r.Floor("C04.R5", 9)
 	c04ReaderCapsCoverWriter(r)
+	c04EntryCodecRoundTrip(r)
+	r.Floor("C04.R7", 9)
 	r.Floor("C04.R6", 2)
 }
 
@@ -829,4 +831,97 @@ func c04ReaderCapsCoverWriter(r *core.Report) {
 	r.Check(capV >= writerMax, rule, open.Key+"#header-cap>=writer-max", pos(r, capPos),
 		fmt.Sprintf("Open accepts header lengths up to %d, the builder writes at most %d", capV, writerMax),
 		fmt.Sprintf("Open rejects header lengths above %d but the builder can write %d bytes (fixed %d + metadata %d): an index sealed without error with large metadata cannot be opened", capV, writerMax, fixed, metaMax))
+}
+
+// c04EntryCodecRoundTrip (C04.R7): an entry written by marshalEntry is read back by unmarshalEntry with the same
+// truncated hash and the same value bytes, for every value width the repository uses. Decided by bit-provenance
+// evaluation of the two functions (and the little-endian helpers they call) on symbolic inputs.
+func c04EntryCodecRoundTrip(r *core.Report) {
+	const rule = "C04.R7"
+	p := r.Prog
+	for _, pk := range c04Pkgs {
+		me := r.Anchor(rule, pk+".(*BucketDescriptor).marshalEntry")
+		ue := r.Anchor(rule, pk+".(*BucketDescriptor).unmarshalEntry")
+		if me == nil || ue == nil {
+			continue
+		}
+		widths := []int{1, 8, 9, 36}
+		if pk == "deprecated/compactindex36" {
+			widths = []int{36}
+		}
+		if pk == "deprecated/compactindex" {
+			widths = []int{1, 3, 5, 8}
+		}
+		const hashLen = 3
+		recvName := func(f *core.Func) string { return f.Decl.Recv.List[0].Names[0].Name }
+		for _, w := range widths {
+			k := fmt.Sprintf("%s#entry-codec-round-trip(value=%d bytes)", pk, w)
+			stride := hashLen + w
+			// encoder
+			eName := "e"
+			if po := me.ParamObj(1); po != nil {
+				eName = po.Name()
+			}
+			valIsInt := false
+			if po := me.ParamObj(1); po != nil {
+				if st, ok := po.Type().Underlying().(*types.Struct); ok {
+					for i := 0; i < st.NumFields(); i++ {
+						if st.Field(i).Name() == "Value" {
+							if _, isBasic := st.Field(i).Type().Underlying().(*types.Basic); isBasic {
+								valIsInt = true
+							}
+						}
+					}
+				}
+			}
+			value := symBytes("value", w)
+			if valIsInt {
+				value = maskInputs(symInt("value", 64), 8*w)
+			}
+			rn := recvName(me)
+			env := evalBitFuncFields(p, me, map[string]bval{
+				rn + ".HashLen": constIntVal(hashLen, 8), rn + ".OffsetWidth": constIntVal(uint64(w), 8), rn + ".Stride": constIntVal(uint64(stride), 8),
+				eName + ".Hash": maskInputs(symInt("hash", 64), 8*hashLen), eName + ".Value": value,
+			}, []bval{zeroBytes(stride)})
+			var enc bval
+			if po := me.ParamObj(0); po != nil && env.vars[po] != nil {
+				enc = *env.vars[po]
+			}
+			if !enc.ok || !enc.slice {
+				r.Undecided(rule, k, posP(r, me.Pos()), "marshalEntry could not be evaluated bit by bit: "+env.note)
+				continue
+			}
+			// decoder
+			rn2 := recvName(ue)
+			denv := evalBitFuncFields(p, ue, map[string]bval{
+				rn2 + ".HashLen": constIntVal(hashLen, 8), rn2 + ".OffsetWidth": constIntVal(uint64(w), 8), rn2 + ".Stride": constIntVal(uint64(stride), 8),
+			}, []bval{enc})
+			h, ok1 := denv.fieldNamed("Hash")
+			v, ok2 := denv.fieldNamed("Value")
+			if !ok1 || !ok2 || !h.ok || !v.ok {
+				r.Undecided(rule, k, posP(r, ue.Pos()), "unmarshalEntry could not be evaluated bit by bit: "+denv.note)
+				continue
+			}
+			okH, whyH := roundTripBits(h, "hash", 8*hashLen)
+			okV, whyV := true, ""
+			if v.slice {
+				if len(v.bits) != 8*w {
+					okV, whyV = false, fmt.Sprintf("the decoded value has %d bytes, %d were written", len(v.bits)/8, w)
+				}
+				for j := 0; okV && j < len(v.bits); j++ {
+					if v.bits[j].src != "value" || v.bits[j].idx != j {
+						okV, whyV = false, fmt.Sprintf("bit %d of the decoded value is %s, not value[%d]", j, v.bits[j], j)
+					}
+				}
+			} else {
+				okV, whyV = roundTripBits(v, "value", 8*w)
+			}
+			why := whyH
+			if why == "" {
+				why = whyV
+			}
+			r.Check(okH && okV, rule, k, posP(r, ue.Pos()), "an entry is read back with the hash and value bytes it was written with",
+				"the entry codec does not round-trip: "+why+" - a key is found with another value, or not found at all")
+		}
+	}
 }
